@@ -571,6 +571,32 @@ class Runner:
         ev["sd_resaved"] = sd_projection(self.model.state_dict())
         ev["sd_loaded_from"] = sd_projection(self.saved)
 
+    def do_LibCall(self, a, ev):
+        from optimum.quanto import quantize_weight
+        g = torch.Generator().manual_seed(5)
+        sd0 = state_digest(self.model)
+        ok = True
+        calls = 0
+        for qt in ("qint8", "qfloat8_e4m3fn", "qfloat8_e5m2", "qint4", "qint2"):
+            for axis in (0, -1):
+                t = torch.randn(8, 32, generator=g).to(self.dtype)
+                t = t.t().contiguous().t() if axis == -1 else t
+                d0, st0 = digest(t), t.stride()
+                q = quantize_weight(t, qtypes[qt], axis, 8 if qtypes[qt].bits < 8 else None)
+                q.dequantize()
+                ok = ok and digest(t) == d0 and t.stride() == st0
+                calls += 1
+        for qt in ("qint8", "qfloat8_e4m3fn", "qfloat8_e5m2"):
+            t = torch.randn(4, 6, generator=g).to(self.dtype)
+            sc = absmax_scale(t, qtypes[qt])
+            d0, s0 = digest(t), digest(sc)
+            quantize_activation(t, qtypes[qt], sc).dequantize()
+            ok = ok and digest(t) == d0 and digest(sc) == s0
+            calls += 1
+        ev["inputs_unchanged"] = bool(ok)
+        ev["lib_calls"] = calls
+        ev["state_before"] = sd0
+
     def do_DeepCopy(self, a, ev):
         with torch.no_grad():
             before = [out_proj(self.model(x)) for x in (self.inputs["x1"], self.inputs["x2"])]
